@@ -18,6 +18,7 @@ exhaustive in-process explorations, it does not replace them.
 import json, math, os, shutil, signal, socket, sqlite3, subprocess, sys, threading, time, urllib.request, zipfile
 from concurrent.futures import ThreadPoolExecutor
 
+GROUPS_D1090 = {"C06": ["positions", "moving"], "C07": ["positions", "kinds"]}
 GROUPS = {"C06": ["positions"], "C07": ["positions", "kinds"], "C10": ["dedup"], "C11": ["kinds"], "C12": ["positions", "kinds"]}
 
 
@@ -215,13 +216,13 @@ def decode1090_scenarios(scs):
     variant leaves 700 s between the third and the fourth report of each aircraft)"""
     out = []
     for sc in scs:
-        if sc["group"] not in ("positions", "kinds") or sc["options"]["df_filter"] or sc["options"]["aircraft_filter"] or sc["options"]["via"] != "cli":
+        if sc["group"] not in ("positions", "kinds", "moving") or sc["options"]["df_filter"] or sc["options"]["aircraft_filter"] or sc["options"]["via"] != "cli":
             continue
         for si, sensor in enumerate(sc["sensors"]):
             ev = [e for e in sc["events"] if e["sensor"] == si]
             if not ev:
                 continue
-            for variant in (["steady", "silence"] if sc["group"] == "positions" else ["steady"]):
+            for variant in (["steady", "silence"] if sc["group"] == "positions" and sc["options"]["dedup_ms"] == 0 else ["steady"]):
                 d = dict(sc)
                 d["events"] = ev
                 d["sensor_index"] = si
@@ -243,21 +244,26 @@ def run_decode1090(exe, sc, scratch, idx):
         for n, e in enumerate(sc["events"]):
             per_ac[e["ac"]] = per_ac.get(e["ac"], 0) + 1
             t += 0.5
+            if "t" in e:
+                t = 1.7e9 + e["t"]
             if sc["variant"] == "silence" and per_ac[e["ac"]] == 5 and e["ac"] == sc["events"][0]["ac"]:
                 t += 700.0
             f.write(json.dumps({"timestamp": t, "frame": e["hex"], "metadata": [{"system_timestamp": t, "serial": sc["sensor_index"] + 1}]}) + "\n")
     ref = sc["sensors"][sc["sensor_index"]]
     cmd = [exe, "--input", inp, "--output", out, "--deduplication", "0", f"--reference={ref['lat']},{ref['lon']}"]
     r.t0 = r.t1 = t
-    try:
-        p = subprocess.run(cmd, cwd=d, stdout=subprocess.DEVNULL, stderr=subprocess.PIPE, text=True, timeout=60,
-                           env={"PATH": os.environ.get("PATH", ""), "HOME": d, "RUST_BACKTRACE": "0"})
-    except subprocess.TimeoutExpired:
-        r.error = "decode1090 did not finish within 60 s"
-        return r
-    if p.returncode != 0:
-        r.error = f"decode1090 exited with {p.returncode}: {p.stderr[-200:]}"
-        return r
+    # (--output appends: for the message kinds the file is written by two runs in a row, as a user who decodes two
+    # captures into one file does)
+    for _ in range(2 if sc["group"] == "kinds" else 1):
+        try:
+            p = subprocess.run(cmd, cwd=d, stdout=subprocess.DEVNULL, stderr=subprocess.PIPE, text=True, timeout=60,
+                               env={"PATH": os.environ.get("PATH", ""), "HOME": d, "RUST_BACKTRACE": "0"})
+        except subprocess.TimeoutExpired:
+            r.error = "decode1090 did not finish within 60 s"
+            return r
+        if p.returncode != 0:
+            r.error = f"decode1090 exited with {p.returncode}: {p.stderr[-200:]}"
+            return r
     r.lines = open(out).read().split("\n") if os.path.exists(out) else []
     if r.lines and r.lines[-1] == "":
         r.lines.pop()
@@ -355,11 +361,18 @@ def judge(label, prefix, runs, scs, cat, pid):
                 if not (dist <= 25.0):
                     violation(f"wrong-position:{e['kind']}", f"scenario {sc['name']}: the {e['kind']} report {e['hex']} of aircraft {e['ac']} at ({e['pos'][0]},{e['pos'][1]}) heard by sensor {e['sensor']} is given ({la},{lo}), {dist:.0f} m off",
                               {"scenarios": [sc["name"]], "frame": e["hex"]})
+        import re as _re
+
+        def plan_of(name):
+            # "solo:M:late-first@sensor0:steady" / "mix:M+N:late-first@sensor0:steady" -> ":late-first@sensor0:steady"
+            rest = name.split(":", 1)[1]
+            m = _re.match(r"[A-Za-z+()]+", rest)
+            return rest[m.end():] if m else rest
         solo = {}
         for r in started:
             if r.name.startswith("solo:"):
                 for ac, seq in positions(r.name).items():
-                    solo[(ac, r.sc.get("variant", ""))] = (r.name, seq)
+                    solo[(ac, plan_of(r.name))] = (r.name, seq)
 
         def same(a, b):
             if a is None or b is None or isinstance(a, str) or isinstance(b, str):
@@ -369,7 +382,7 @@ def judge(label, prefix, runs, scs, cat, pid):
             if not r.name.startswith("mix:"):
                 continue
             for ac, seq in positions(r.name).items():
-                ref = solo.get((ac, r.sc.get("variant", "")))
+                ref = solo.get((ac, plan_of(r.name)))
                 if ref is None or len(ref[1]) != len(seq):
                     continue
                 diff = next(((a, b) for a, b in zip(ref[1], seq) if a[0] != b[0] or not same(a[1], b[1])), None)
@@ -448,6 +461,9 @@ def judge(label, prefix, runs, scs, cat, pid):
                 if ent.get("squawk") is not None and ent["squawk"] not in own_sq:
                     violation("rest:provenance:squawk", f"scenario {r.name}: entry {ic} holds squawk {ent['squawk']}; its own records carry {sorted(own_sq)}", {"scenarios": [r.name]})
                 tr = r.tracks.get(ic)
+                stored = [rec for _, rec in lst if str(rec.get("df")) in ("17", "18", "20", "21")]
+                if stored and not isinstance(tr, list):
+                    violation("rest:track:not-found", f"scenario {r.name}: {ic} is in the table and {len(stored)} of its records are kept in the history, but /track?icao24={ic} answers {str(tr)[:60]!r}", {"scenarios": [r.name]})
                 if isinstance(tr, list):
                     # the history drops the frame bytes: records are matched by their time stamp
                     frames = [t.get("timestamp") for t in tr if isinstance(t, dict)]
@@ -458,6 +474,27 @@ def judge(label, prefix, runs, scs, cat, pid):
                     elif [t for t in frames if t not in own] or len(set(frames)) != len(frames):
                         # (the history keeps the extended squitters and Comm-B replies only: a subset is expected)
                         violation("rest:track:records", f"scenario {r.name}: /track?icao24={ic} returns records ({len(frames)}) that are not records of that aircraft, or returns one twice", {"scenarios": [r.name]})
+    if pid == "C12":
+        # the filters select what is written and kept as history, not what the table knows: with any filter
+        # configuration the table holds what it holds without one
+        base = next((r for r in started if r.name == "kinds:0:cli" and r.all is not None), None)
+
+        def table_of(r):
+            return {x.get("icao24"): {k: v for k, v in x.items() if k not in ("firstseen", "lastseen", "metadata")} for x in r.all if x.get("icao24") != sent_ic}
+        if base is not None:
+            want = table_of(base)
+            for r in started:
+                o = r.sc["options"]
+                if r.sc["group"] != "kinds" or r.all is None or not (o["df_filter"] or o["aircraft_filter"]) or r.sc["events"] != base.sc["events"]:
+                    continue
+                got = table_of(r)
+                outcome("table-under-filter")
+                for ic in sorted(set(want) | set(got)):
+                    if want.get(ic) != got.get(ic):
+                        a, b = want.get(ic), got.get(ic)
+                        fields = sorted(k for k in set(a or {}) | set(b or {}) if (a or {}).get(k) != (b or {}).get(k)) if a and b else ["entry"]
+                        violation("rest:table-depends-on-filter", f"scenario {r.name} (df_filter={o['df_filter']} aircraft_filter={o['aircraft_filter']}): the table entry of {ic} differs from the one of the unfiltered run in {fields[:6]} (e.g. count {None if not b else b.get('count')} instead of {None if not a else a.get('count')})", {"scenarios": [r.name, base.name]})
+                        break
     if pid == "C10":
         for r in started:
             sc = r.sc
@@ -546,7 +583,7 @@ def main():
     parts = [judge("jet1090", "e2e:", runs, scs, cat, pid)]
     d1090 = os.environ.get("E2E_DECODE1090")
     if d1090 and pid in ("C06", "C07"):
-        dscs = decode1090_scenarios(scs)
+        dscs = decode1090_scenarios([s for s in cat["scenarios"] if s["group"] in GROUPS_D1090[pid] and (not replay or s in scs or s["name"].startswith("solo:"))])
         with ThreadPoolExecutor(max_workers=12) as ex:
             druns = list(ex.map(lambda a: run_decode1090(d1090, a[1], scratch, a[0]), enumerate(dscs)))
         parts.append(judge("decode1090", "decode1090:", druns, dscs, cat, pid))
